@@ -911,4 +911,106 @@ Proof.
   constructor; [eapply eqv_refines; eauto | eapply eqv_flags_ok; eauto | exact Hi | exact Hfo].
 Qed.
 
+(* ---------------------------------------------------------------- premises stated once for a history *)
+Definition ids_ok (l : list blk) : Prop :=
+  forall b, In b l -> D (b_id b) /\ D (b_parent b) /\ num_of (b_parent b) + 1 = num_of (b_id b).
+
+(* the coupling along a history, stated on the Bft side alone: whenever the abstract node stores a block, the flags the
+   crash-side block carries are the tally compute_state gives for it there *)
+Fixpoint flags_hist (nd : BM.node) (l : list blk) : Prop :=
+  match l with
+  | [] => True
+  | b :: t => (stores nd (ablk b) = true -> blk_flags_ok nd b) /\ flags_hist (fst (BM.import true bc nd (ablk b))) t
+  end.
+
+Lemma hist_ok_intro l : forall s nd, ids_ok l -> wf_hist c s l -> flags_hist nd l -> hist_ok s nd l.
+Proof.
+  induction l as [|b t IH]; intros s nd Hi Hw Hf; [exact I|].
+  cbn [hist_ok]. destruct Hw as [Hwb Hwt]. destruct Hf as [Hfb Hft].
+  destruct (Hi b (or_introl eq_refl)) as (H1 & H2 & H3). split.
+  - unfold blk_ok. split; [exact H1|]. split; [exact H2|]. split; [intros _; exact H3|]. split; [exact Hwb | exact Hfb].
+  - apply IH; auto. intros b' Hb'. apply Hi. right. exact Hb'.
+Qed.
+
+(* ---------------------------------------------------------------- transfer: C04 stored_quality_is_from_scratch *)
+(* in every store related to a Bft node (in particular every resumed node): the quality the crash model computes for a
+   stored block from the records it finds — and the record itself at a store point — is the quality of the block's chain
+   recomputed from the definitions over the stored set (state_pure: no records, no caches) *)
+Theorem sim_quality_from_scratch s nd id sm : wf_cfg c -> sim s nd -> get_summary s id = Some sm ->
+  quality_of c s (s_parent sm) (num_of id) (s_just sm) = Some (BC.quality_pure bc (BT.chain_of (BM.n_repo nd) (tr id))) /\
+  (is_storepoint (c_L c) (num_of id) = true ->
+   get_quality s id = BC.quality_pure bc (BT.chain_of (BM.n_repo nd) (tr id))).
+Proof.
+  intros Hc [Rf Hfl Hi Hfo] E. pose proof Rf as [V _ _].
+  assert (Hs : stored s id = true) by (unfold stored; rewrite E; reflexivity).
+  pose proof (v_dom _ _ _ V _ Hs) as Hd.
+  pose proof (v_find _ _ _ V id Hd) as Ff. rewrite E in Ff. cbn in Ff.
+  destruct (BC.find_blk_id _ _ _ Ff) as [Hid Hin].
+  pose proof (BN.compute_state_stored bc (HLb Hc) _ _ (asum id sm) (BN.inv_wf bc nd Hi) (BN.inv_qs bc nd Hi) Hin) as Q.
+  unfold BN.qual in Q. change (BT.b_id (asum id sm)) with (tr id) in Q. split.
+  - rewrite (stored_quality_agree s _ _ V Hc id sm E (proj1 (Hfl id sm E))). f_equal. exact Q.
+  - intros Hsp. rewrite <- (v_qs _ _ _ V id Hd).
+    pose proof (BN.inv_qs bc nd Hi (asum id sm) Hin) as Q2. unfold BN.qual in Q2.
+    change (BT.b_id (asum id sm)) with (tr id) in Q2. apply Q2.
+    rewrite (asum_num id sm Hd), HcL. unfold is_storepoint in Hsp. apply N.eqb_eq in Hsp. exact Hsp.
+Qed.
+
+(* ---------------------------------------------------------------- transfer: C04 finalized_is_function_of_set / import_set_order_independent *)
+(* over a consistent block tree U (Bft.ProofsOrder3.tree_consistent: in every well-formed repository drawn from it all
+   finalizing blocks lie on one chain) the abstract node stays node_ok: finalized = fin_char of the stored set *)
+Theorem run_node_ok U l : forall s nd, wf_cfg c -> BO3.tree_consistent bc U ->
+  sim s nd -> hist_ok s nd l -> BO3.node_ok bc U nd -> (forall b, In b l -> In (ablk b) U) ->
+  BO3.node_ok bc U (BN.import_all bc true nd (map ablk l)).
+Proof.
+  induction l as [|b t IH]; intros s nd Hc HU S H Hok HinU; [exact Hok|].
+  cbn [map BN.import_all]. destruct H as [Hb Ht]. pose proof (import_sim_step s nd b Hc S Hb) as S'.
+  destruct S as [Rf Hfl Hi Hfo]. destruct (import_sim s nd b Hc Rf Hfl Hb) as (_ & _ & _ & Hvc).
+  apply (IH _ _ Hc HU S' Ht).
+  - apply (BO3.import_ok_step bc (HLb Hc) U nd (ablk b) HU); [apply HinU; left; reflexivity | exact Hok | exact Hvc].
+  - intros b' Hb'. apply HinU. right. exact Hb'.
+Qed.
+
+(* two stores related to node_ok nodes that hold the same blocks (same ids with the same parent and total score; conflict
+   numbers, trie nodes, arrival order, crashes and restarts may differ) hold the same best block, the same finalized block
+   and the same quality records *)
+Theorem sim_function_of_set U s1 n1 s2 n2 : wf_cfg c -> BO3.tree_consistent bc U ->
+  sim s1 n1 -> sim s2 n2 -> BO3.node_ok bc U n1 -> BO3.node_ok bc U n2 ->
+  (forall id, option_map (asum id) (get_summary s1 id) = option_map (asum id) (get_summary s2 id)) ->
+  get_id s1 KBest = get_id s2 KBest /\ finalized c s1 = finalized c s2 /\
+  (forall id, stored s1 id = true -> is_storepoint (c_L c) (num_of id) = true -> get_quality s1 id = get_quality s2 id).
+Proof.
+  intros Hc HU S1 S2 (I1 & F1 & U1) (I2 & F2 & U2) Hsame.
+  pose proof S1 as [Rf1 _ _ _]. pose proof S2 as [Rf2 _ _ _].
+  pose proof Rf1 as [V1 (b1 & Hb1 & Eb1) Ef1]. pose proof Rf2 as [V2 (b2 & Hb2 & Eb2) Ef2].
+  pose proof (BN.inv_wf bc _ I1) as W1. pose proof (BN.inv_wf bc _ I2) as W2.
+  assert (G : forall sa na sb nb, view sa (BM.n_repo na) (BM.e_qs (BM.n_eng na)) -> view sb (BM.n_repo nb) (BM.e_qs (BM.n_eng nb)) ->
+     (forall id, option_map (asum id) (get_summary sa id) = option_map (asum id) (get_summary sb id)) ->
+     forall x, In x (BM.n_repo na) -> In x (BM.n_repo nb)).
+  { intros sa na sb nb Va Vb Hs x Hx. destruct (v_in _ _ _ Va x Hx) as (id & sm & E & ->).
+    assert (Hsa : stored sa id = true) by (unfold stored; rewrite E; reflexivity).
+    pose proof (v_dom _ _ _ Va _ Hsa) as Hd. pose proof (v_find _ _ _ Vb id Hd) as Ff.
+    rewrite <- Hs, E in Ff. cbn in Ff. exact (proj2 (BC.find_blk_id _ _ _ Ff)). }
+  assert (Hset : forall x, In x (BM.n_repo n1) <-> In x (BM.n_repo n2)).
+  { intro x. split; [apply (G s1 n1 s2 n2 V1 V2 Hsame) | apply (G s2 n2 s1 n1 V2 V1)]. intro id. symmetry. apply Hsame. }
+  assert (Hch : forall id, BT.chain_of (BM.n_repo n1) id = BT.chain_of (BM.n_repo n2) id)
+    by (intro id; apply BO.chain_of_set_eq; assumption).
+  assert (Ebest : BM.n_best n1 = BM.n_best n2).
+  { apply (BN.same_repo_same_best bc (HLb Hc) n1 n2 I1 I2 Hset). intros x _. unfold BN.qual. rewrite Hch. reflexivity. }
+  assert (Efin : BM.e_fin (BM.n_eng n1) = BM.e_fin (BM.n_eng n2)).
+  { apply (BO.fin_char_unique bc (HLb Hc) (BM.n_repo n1) (BM.n_repo n2) _ _ W1 W2 Hset); [|exact F1 | exact F2].
+    apply HU; assumption. }
+  split; [|split].
+  - rewrite Hb1, Hb2. f_equal. rewrite Eb1, Eb2 in Ebest.
+    destruct (inv_best c s1 (v_inv _ _ _ V1)) as (x1 & Hx1 & Hs1). rewrite Hb1 in Hx1. inversion Hx1; subst x1.
+    destruct (inv_best c s2 (v_inv _ _ _ V2)) as (x2 & Hx2 & Hs2). rewrite Hb2 in Hx2. inversion Hx2; subst x2.
+    apply (tr_inj _ _ (v_dom _ _ _ V1 _ Hs1) (v_dom _ _ _ V2 _ Hs2) Ebest).
+  - rewrite Ef1, Ef2 in Efin.
+    apply (tr_inj _ _ (v_dom _ _ _ V1 _ (finalized_stored c s1 Hc (v_inv _ _ _ V1)))
+                      (v_dom _ _ _ V2 _ (finalized_stored c s2 Hc (v_inv _ _ _ V2))) Efin).
+  - intros id Hs1 Hsp. unfold stored in Hs1. destruct (get_summary s1 id) as [sm1|] eqn:E1; [|discriminate].
+    pose proof (Hsame id) as Hs. rewrite E1 in Hs. destruct (get_summary s2 id) as [sm2|] eqn:E2; [|discriminate].
+    rewrite (proj2 (sim_quality_from_scratch s1 n1 id sm1 Hc S1 E1) Hsp).
+    rewrite (proj2 (sim_quality_from_scratch s2 n2 id sm2 Hc S2 E2) Hsp). rewrite Hch. reflexivity.
+Qed.
+
 End Bridge.
